@@ -30,11 +30,12 @@ func init() {
 			"textual forms (CONCAT, CHANGETYPE string) are asserted for strings, booleans and finite numbers (by their decimal text, no exponent)",
 			"base / algorithm / type names are given in lower case as the statement spells them; ENCODE/HASH of NULL is not asserted (NULL is not a scalar value)",
 		},
-		Floor:         append([]string{"elementat.big", "if.computed-branch", "if.computed-branch.null-condition", "text.decimal"}, c18Kinds...),
+		Floor:         append([]string{"elementat.big", "if.computed-branch", "if.computed-branch.null-condition", "text.decimal", "twins.literal-case", "twins.name-case"}, c18Kinds...),
 		MinNontrivial: 100,
 		Phases: []fw.Phase{
 			{Name: "fn", N: func(t fw.Tier) int { return pick(t, 30000, 1000000) }, Run: c18Run},
 			{Name: "big", N: func(t fw.Tier) int { return pick(t, 4, 24) }, Run: c18Big, Batch: 2},
+			{Name: "twins", N: func(t fw.Tier) int { return pick(t, 3000, 60000) }, Run: c18Twins},
 		},
 		Witness: sqlWitness,
 	})
@@ -598,6 +599,76 @@ func c18Big(c *fw.Case) {
 	row, _ := o.Rows[0].(map[string]any)
 	if !val.Equal(val.Deref(row["v"]), float64(i)) || !val.Equal(val.Deref(row["l"]), float64(n-1)) || !val.Equal(val.Deref(row["f"]), 0.0) {
 		c.Violate("value", fmt.Sprintf("ELEMENTAT(arr, %d) = %v, LAST = %v, FIRST = %v over [0 .. %d]", i, row["v"], row["l"], row["f"], n-1), det)
+		return
+	}
+	c.Nontrivial(sql)
+}
+
+
+// c18Twins: two calls of one function in one select list whose arguments differ
+// in letter case (or in the spelling of the function's name) only. Each call
+// is a function of its own arguments: together they return what each returns
+// when it is the only call of the query.
+func c18Twins(c *fw.Case) {
+	tpls := []string{"HASH(%s, 'sha1')", "HASH(%s, 'md5')", "ENCODE(%s, 'hex')", "CONCAT(%s, '-', %s)", "ARRAY(%s, 1)", "IF(true, %s, 'n')", "DECODE(ENCODE(%s, 'base64'), 'base64')", "FIRST(ARRAY(%s))", "CHANGETYPE(%s, 'array')", "CONCAT(%s)"}
+	tpl := tpls[c.Idx%len(tpls)]
+	base := gen.Pick(c.R, []string{"admin", "Hello World", "aBc", "straße", "x1", "Zoë", "ok", "SELECT"})
+	other := strings.ToUpper(base)
+	switch c.Intn(3) {
+	case 0:
+		other = strings.ToLower(base)
+	case 1:
+		other = strings.ToUpper(base[:1]) + base[1:]
+	}
+	if other == base {
+		other = base + "X"
+	}
+	call := func(v string) string { return strings.ReplaceAll(tpl, "%s", gen.SQLString(v, 0)) }
+	a, b := call(base), call(other)
+	feat := "twins.literal-case"
+	if c.Chance(0.25) {
+		// the same call under two spellings of the function's name
+		b = strings.ToLower(a[:strings.Index(a, "(")]) + a[strings.Index(a, "("):]
+		other = base
+		feat = "twins.name-case"
+	}
+	c.Feature(feat)
+	doc := map[string]any{"t": []any{map[string]any{"k": 1.0}}}
+	alone := func(callSQL string) (any, bool) {
+		o := Run(val.CopyMap(doc), "SELECT "+callSQL+" AS v FROM t")
+		if !o.OK() || len(o.Rows) != 1 {
+			c.Violate("error", fmt.Sprintf("%s failed on its own: %v", callSQL, o.Describe()), map[string]any{"sql": callSQL})
+			return nil, false
+		}
+		return o.Rows[0].(map[string]any)["v"], true
+	}
+	va, ok := alone(a)
+	if !ok {
+		return
+	}
+	vb, ok := alone(b)
+	if !ok {
+		return
+	}
+	sql := "SELECT " + a + " AS v, " + b + " AS w FROM t"
+	if c.Chance(0.5) {
+		sql = "SELECT " + b + " AS w, " + a + " AS v FROM t"
+	}
+	o := Run(val.CopyMap(doc), sql)
+	c.Evals(3)
+	c.Sample(map[string]any{"sql": sql})
+	det := map[string]any{"sql": sql, "alone_v": val.Show(va), "alone_w": val.Show(vb), "observed": o.Describe()}
+	if !o.OK() || len(o.Rows) != 1 {
+		c.Violate("error", fmt.Sprintf("two calls in one select list failed: %v", o.Describe()), det)
+		return
+	}
+	row := o.Rows[0].(map[string]any)
+	if !val.Equal(row["v"], va) || !val.Equal(row["w"], vb) {
+		c.Violate("value", fmt.Sprintf("two calls of one function in one select list returned v=%s w=%s; each on its own returns v=%s w=%s", short(val.Canon(row["v"]), 80), short(val.Canon(row["w"]), 80), short(val.Canon(va), 80), short(val.Canon(vb), 80)), det)
+		return
+	}
+	if feat == "twins.name-case" && !val.Equal(va, vb) {
+		c.Violate("value", "the same call under two spellings of the function's name returned two values", det)
 		return
 	}
 	c.Nontrivial(sql)
